@@ -532,7 +532,54 @@ FEATURES = {
 }
 
 
+def opcode_programs():
+    """one tiny program per opcode form and literal class: result = op(arguments) returned directly"""
+    out = []
+
+    def add(params, ret, *body):
+        n = 9
+        nregs = n + sum(1 if t == 'I' else 2 for t in params)
+        out.append(dict(prog=list(body), params=params, ret=ret, nregs=nregs, nlocals=n, flavour='opcodes', seed=len(out)))
+    P0, P1 = 9, 10          # II
+    Q0, Q1 = 9, 11          # JJ (and J, I = 9, 11)
+    for op in BINOPS:
+        add('II', 'I', (op + '-int', 0, P0, P1), ('return', 0))
+        add('II', 'I', (op + '-int/2addr', P0, P1), ('return', P0))
+        if op in ('shl', 'shr', 'ushr'):
+            add('JI', 'J', (op + '-long', 4, Q0, Q1), ('return-wide', 4))
+            add('JI', 'J', (op + '-long/2addr', Q0, Q1), ('return-wide', Q0))
+        else:
+            add('JJ', 'J', (op + '-long', 4, Q0, Q1), ('return-wide', 4))
+            add('JJ', 'J', (op + '-long/2addr', Q0, Q1), ('return-wide', Q0))
+    for op in ['add', 'rsub', 'mul', 'div', 'rem', 'and', 'or', 'xor', 'shl', 'shr', 'ushr']:
+        for lit in (-128, -1, 1, 31, 127):
+            add('I', 'I', (op + '-int/lit8', 0, P0, lit), ('return', 0))
+    for op in LIT16:
+        for lit in (-32768, -256, -1, 1, 255, 32767):
+            add('I', 'I', (op + '-int/lit16', 0, P0, lit), ('return', 0))
+    for n in ('neg-int', 'not-int', 'int-to-byte', 'int-to-short', 'int-to-char'):
+        add('I', 'I', (n, 0, P0), ('return', 0))
+    for n in ('neg-long', 'not-long'):
+        add('J', 'J', (n, 4, Q0), ('return-wide', 4))
+    add('I', 'J', ('int-to-long', 4, P0), ('return-wide', 4))
+    add('J', 'I', ('long-to-int', 0, Q0), ('return', 0))
+    for c in ('const/4', 'const/16', 'const', 'const/high16'):
+        for v in {'const/4': (-8, 7), 'const/16': (-32768, 32767), 'const': (-2147483648, 2147483647), 'const/high16': (0x8000, 0x7fff)}[c]:
+            add('I', 'I', (c, 0, v), ('add-int/2addr', 0, P0), ('return', 0))
+    for c in ('const-wide/16', 'const-wide/32', 'const-wide', 'const-wide/high16'):
+        for v in {'const-wide/16': (-32768, 32767), 'const-wide/32': (-2147483648, 2147483647),
+                  'const-wide': (-9223372036854775808, 9223372036854775807), 'const-wide/high16': (0x8000, 0x7fff)}[c]:
+            add('J', 'J', (c, 4, v), ('xor-long/2addr', 4, Q0), ('return-wide', 4))
+    for c in ('eq', 'ne', 'lt', 'ge', 'gt', 'le'):
+        add('II', 'I', ('if-' + c, P0, P1, 'T'), ('const/4', 0, 0), ('return', 0), ('label', 'T'), ('const/4', 0, 1), ('return', 0))
+        add('I', 'I', ('if-' + c + 'z', P0, 'T'), ('const/4', 0, 0), ('return', 0), ('label', 'T'), ('const/4', 0, 1), ('return', 0))
+        add('JJ', 'I', ('cmp-long', 8, Q0, Q1), ('if-' + c + 'z', 8, 'T'), ('const/4', 0, 0), ('return', 0), ('label', 'T'), ('const/4', 0, 1), ('return', 0))
+    return out
+
+
 def gen_program(seed, flavour):
+    if flavour == 'opcodes':
+        return opcode_programs()[seed % 100003]
     rnd = random.Random(seed)
     params = rnd.choice(['II', 'IJ', 'I', 'J', 'III', 'JI'])
     ret = rnd.choice(['I', 'I', 'J'])
